@@ -20,6 +20,11 @@ func (r *FragRule) RunPass(ctx *Context, pass Pass) {
 			Pos: r.Bounds().Begin,
 		}
 
+		// The generated state machine returns as soon as it runs a @discard or
+		// @emit action, so these go last: mode actions written after them must
+		// still take effect.
+		var terminalActions []mode.Action
+
 		hasDiscard := false
 		hasEmit := false
 		for _, actAST := range r.Actions {
@@ -33,6 +38,8 @@ func (r *FragRule) RunPass(ctx *Context, pass Pass) {
 					return
 				}
 				hasDiscard = true
+				terminalActions = append(terminalActions, act)
+				continue
 			case mode.ActionAccept:
 				if hasEmit {
 					ctx.Errs.Errorf(
@@ -41,9 +48,12 @@ func (r *FragRule) RunPass(ctx *Context, pass Pass) {
 					return
 				}
 				hasEmit = true
+				terminalActions = append(terminalActions, act)
+				continue
 			}
 			actions.Actions = append(actions.Actions, act)
 		}
+		actions.Actions = append(actions.Actions, terminalActions...)
 
 		if !hasDiscard && !hasEmit {
 			actions.Actions = append(actions.Actions, mode.Action{
